@@ -1,16 +1,23 @@
 import GeomV.C10.Mem
-/-! Lemmas about the memory model of `LineString.Transform` (C10 "input untouched", partial). -/
+/-!
+Lemmas about the memory model of `Transform` (C10 "input untouched"): every primitive and every
+method keeps all cells below a frozen bound `k` unchanged (`Frozen`) and keeps the invariant that
+headers stored in cells above `k` point above `k` (`Inv`).
+-/
 set_option linter.unusedSimpArgs false
 set_option linter.unusedVariables false
+set_option linter.unusedSectionVars false
 namespace GeomV.C10.Mem
 open GeomV GeomV.C10
 
-variable {E α : Type}
+variable {E α β : Type}
 
-theorem set_prefix (m m' : Mem α) (a2 i k : Nat) (v : Pt α) (hk : k ≤ a2)
-    (h : set (E := E) m a2 i v = .ok m') : m'.take k = m.take k ∧ m'.length = m.length := by
-  unfold set at h
-  cases hm : m[a2]? with
+/-! ## one area -/
+
+theorem aSet_take (ar ar' : List (List β)) (a i k : Nat) (v : β) (hk : k ≤ a)
+    (h : aSet (E := E) ar a i v = .ok ar') : ar'.take k = ar.take k ∧ ar'.length = ar.length := by
+  unfold aSet at h
+  cases hm : ar[a]? with
   | none => simp [hm] at h
   | some arr =>
     simp only [hm] at h
@@ -19,56 +26,452 @@ theorem set_prefix (m m' : Mem α) (a2 i k : Nat) (v : Pt α) (hk : k ≤ a2)
       exact ⟨List.take_set_of_le hk, List.length_set⟩
     · simp [hi] at h
 
-/-- the loop writes only through `a2`: everything below `k ≤ a2` is untouched, whatever happens -/
-theorem loop_prefix (t : TF E α) (a a2 k : Nat) (hk : k ≤ a2) :
-    ∀ (n i : Nat) (m : Mem α), (loop t a a2 i n m).1.take k = m.take k ∧ (loop t a a2 i n m).1.length = m.length := by
+theorem aAlloc_take (ar : List (List β)) (arr : List β) (k : Nat) (hk : k ≤ ar.length) :
+    (aAlloc ar arr).2.take k = ar.take k ∧ ar.length ≤ (aAlloc ar arr).2.length := by
+  simp [aAlloc, List.take_append_of_le_length hk]
+
+/-- cells at addresses ≥ k hold only values satisfying `P` -/
+def AreaInv (P : β → Prop) (k : Nat) (ar : List (List β)) : Prop :=
+  ∀ a arr, k ≤ a → ar[a]? = some arr → ∀ h ∈ arr, P h
+
+theorem AreaInv_alloc (P : β → Prop) (k : Nat) (ar : List (List β)) (arr : List β)
+    (hz : ∀ h ∈ arr, P h) (hi : AreaInv P k ar) : AreaInv P k (aAlloc ar arr).2 := by
+  intro a arr' hka hget h hh
+  simp only [aAlloc] at hget
+  by_cases ha : a < ar.length
+  · rw [List.getElem?_append_left ha] at hget; exact hi a arr' hka hget h hh
+  · have ha' : ar.length ≤ a := Nat.le_of_not_lt ha
+    rw [List.getElem?_append_right ha'] at hget
+    by_cases h0 : a - ar.length = 0
+    · simp [h0] at hget; subst hget; exact hz h hh
+    · have : ([arr] : List (List β))[a - ar.length]? = none := by
+        apply List.getElem?_eq_none; simp; omega
+      rw [this] at hget; cases hget
+
+theorem AreaInv_set (P : β → Prop) (k : Nat) (ar ar' : List (List β)) (a i : Nat) (v : β) (hv : P v)
+    (h : aSet (E := E) ar a i v = .ok ar') (hi : AreaInv P k ar) : AreaInv P k ar' := by
+  unfold aSet at h
+  cases hm : ar[a]? with
+  | none => simp [hm] at h
+  | some arr =>
+    simp only [hm] at h
+    by_cases hlt : i < arr.length
+    · simp [hlt] at h; subst h
+      intro b arr' hkb hget x hx
+      by_cases hb : b = a
+      · subst hb
+        have hlen : b < ar.length := (List.getElem?_eq_some_iff.mp hm).1
+        rw [List.getElem?_set_self hlen] at hget
+        cases hget
+        rcases List.mem_or_eq_of_mem_set hx with h1 | h1
+        · exact hi b arr hkb hm x h1
+        · subst h1; exact hv
+      · rw [List.getElem?_set_ne (Ne.symm hb)] at hget
+        exact hi b arr' hkb hget x hx
+    · simp [hlt] at h
+
+/-! ## the whole memory -/
+
+structure Bound where
+  pts : Nat
+  paths : Nat
+  polys : Nat
+  geoms : Nat
+
+def Mem.bound (m : Mem α) : Bound := ⟨m.pts.length, m.paths.length, m.polys.length, m.geoms.length⟩
+
+def Bound.le (k : Bound) (m : Mem α) : Prop :=
+  k.pts ≤ m.pts.length ∧ k.paths ≤ m.paths.length ∧ k.polys ≤ m.polys.length ∧ k.geoms ≤ m.geoms.length
+
+/-- everything below the bound is unchanged, the `Bounds` structs are unchanged, areas only grow -/
+structure Frozen (k : Bound) (m m' : Mem α) : Prop where
+  pts : m'.pts.take k.pts = m.pts.take k.pts
+  paths : m'.paths.take k.paths = m.paths.take k.paths
+  polys : m'.polys.take k.polys = m.polys.take k.polys
+  geoms : m'.geoms.take k.geoms = m.geoms.take k.geoms
+  bnds : m'.bnds = m.bnds
+  lpts : m.pts.length ≤ m'.pts.length
+  lpaths : m.paths.length ≤ m'.paths.length
+  lpolys : m.polys.length ≤ m'.polys.length
+  lgeoms : m.geoms.length ≤ m'.geoms.length
+
+def Slice.fresh (k : Nat) (s : Slice) : Prop := s.len = 0 ∨ k ≤ s.addr
+
+/-- the value holds no reference below the bound -/
+def MGeom.fresh (k : Bound) : MGeom α → Prop
+  | .point _ => True
+  | .multiPoint s => s.fresh k.pts
+  | .lineString s => s.fresh k.pts
+  | .multiLineString s => s.fresh k.paths
+  | .polygon s => s.fresh k.paths
+  | .multiPolygon s => s.fresh k.polys
+  | .collection s => s.fresh k.geoms
+  | .bounds _ => False
+  | .nil => True
+
+/-- every header stored in a cell above the bound refers above the bound -/
+structure Inv (k : Bound) (m : Mem α) : Prop where
+  paths : AreaInv (Slice.fresh k.pts) k.paths m.paths
+  polys : AreaInv (Slice.fresh k.paths) k.polys m.polys
+  geoms : AreaInv (MGeom.fresh k) k.geoms m.geoms
+
+/-- one step of execution is harmless w.r.t. the bound -/
+structure Ok (k : Bound) (m m' : Mem α) : Prop where
+  frozen : Frozen k m m'
+  inv : Inv k m → Inv k m'
+
+theorem Frozen.refl (k : Bound) (m : Mem α) : Frozen k m m :=
+  ⟨rfl, rfl, rfl, rfl, rfl, Nat.le_refl _, Nat.le_refl _, Nat.le_refl _, Nat.le_refl _⟩
+
+theorem Frozen.trans {k : Bound} {m1 m2 m3 : Mem α} (a : Frozen k m1 m2) (b : Frozen k m2 m3) : Frozen k m1 m3 :=
+  ⟨b.pts.trans a.pts, b.paths.trans a.paths, b.polys.trans a.polys, b.geoms.trans a.geoms, b.bnds.trans a.bnds,
+   Nat.le_trans a.lpts b.lpts, Nat.le_trans a.lpaths b.lpaths, Nat.le_trans a.lpolys b.lpolys,
+   Nat.le_trans a.lgeoms b.lgeoms⟩
+
+theorem Ok.refl (k : Bound) (m : Mem α) : Ok k m m := ⟨Frozen.refl k m, id⟩
+theorem Ok.trans {k : Bound} {m1 m2 m3 : Mem α} (a : Ok k m1 m2) (b : Ok k m2 m3) : Ok k m1 m3 :=
+  ⟨a.frozen.trans b.frozen, fun h => b.inv (a.inv h)⟩
+
+theorem Bound.le_of_frozen {k : Bound} {m m' : Mem α} (h : k.le m) (f : Frozen k m m') : k.le m' :=
+  ⟨Nat.le_trans h.1 f.lpts, Nat.le_trans h.2.1 f.lpaths, Nat.le_trans h.2.2.1 f.lpolys, Nat.le_trans h.2.2.2 f.lgeoms⟩
+
+/-! ### primitives on the four areas -/
+
+theorem ok_setPts (k : Bound) (m : Mem α) (pts' : List (List (Pt α))) (a i : Nat) (v : Pt α) (hk : k.pts ≤ a)
+    (h : aSet (E := E) m.pts a i v = .ok pts') : Ok k m { m with pts := pts' } := by
+  obtain ⟨h1, h2⟩ := aSet_take m.pts pts' a i k.pts v hk h
+  exact ⟨⟨h1, rfl, rfl, rfl, rfl, Nat.le_of_eq h2.symm, Nat.le_refl _, Nat.le_refl _, Nat.le_refl _⟩,
+    fun hi => ⟨hi.paths, hi.polys, hi.geoms⟩⟩
+
+theorem ok_allocPts (k : Bound) (m : Mem α) (arr : List (Pt α)) (hk : k.le m) :
+    Ok k m { m with pts := (aAlloc m.pts arr).2 } := by
+  obtain ⟨h1, h2⟩ := aAlloc_take m.pts arr k.pts hk.1
+  exact ⟨⟨h1, rfl, rfl, rfl, rfl, h2, Nat.le_refl _, Nat.le_refl _, Nat.le_refl _⟩,
+    fun hi => ⟨hi.paths, hi.polys, hi.geoms⟩⟩
+
+theorem ok_setPaths (k : Bound) (m : Mem α) (paths' : List (List Slice)) (a i : Nat) (v : Slice)
+    (hk : k.paths ≤ a) (hv : v.fresh k.pts) (h : aSet (E := E) m.paths a i v = .ok paths') :
+    Ok k m { m with paths := paths' } := by
+  obtain ⟨h1, h2⟩ := aSet_take m.paths paths' a i k.paths v hk h
+  exact ⟨⟨rfl, h1, rfl, rfl, rfl, Nat.le_refl _, Nat.le_of_eq h2.symm, Nat.le_refl _, Nat.le_refl _⟩,
+    fun hi => ⟨AreaInv_set _ _ _ _ a i v hv h hi.paths, hi.polys, hi.geoms⟩⟩
+
+theorem ok_allocPaths (k : Bound) (m : Mem α) (arr : List Slice) (hk : k.le m) (hz : ∀ h ∈ arr, Slice.fresh k.pts h) :
+    Ok k m { m with paths := (aAlloc m.paths arr).2 } := by
+  obtain ⟨h1, h2⟩ := aAlloc_take m.paths arr k.paths hk.2.1
+  exact ⟨⟨rfl, h1, rfl, rfl, rfl, Nat.le_refl _, h2, Nat.le_refl _, Nat.le_refl _⟩,
+    fun hi => ⟨AreaInv_alloc _ _ _ arr hz hi.paths, hi.polys, hi.geoms⟩⟩
+
+theorem ok_setPolys (k : Bound) (m : Mem α) (polys' : List (List Slice)) (a i : Nat) (v : Slice)
+    (hk : k.polys ≤ a) (hv : v.fresh k.paths) (h : aSet (E := E) m.polys a i v = .ok polys') :
+    Ok k m { m with polys := polys' } := by
+  obtain ⟨h1, h2⟩ := aSet_take m.polys polys' a i k.polys v hk h
+  exact ⟨⟨rfl, rfl, h1, rfl, rfl, Nat.le_refl _, Nat.le_refl _, Nat.le_of_eq h2.symm, Nat.le_refl _⟩,
+    fun hi => ⟨hi.paths, AreaInv_set _ _ _ _ a i v hv h hi.polys, hi.geoms⟩⟩
+
+theorem ok_allocPolys (k : Bound) (m : Mem α) (arr : List Slice) (hk : k.le m) (hz : ∀ h ∈ arr, Slice.fresh k.paths h) :
+    Ok k m { m with polys := (aAlloc m.polys arr).2 } := by
+  obtain ⟨h1, h2⟩ := aAlloc_take m.polys arr k.polys hk.2.2.1
+  exact ⟨⟨rfl, rfl, h1, rfl, rfl, Nat.le_refl _, Nat.le_refl _, h2, Nat.le_refl _⟩,
+    fun hi => ⟨hi.paths, AreaInv_alloc _ _ _ arr hz hi.polys, hi.geoms⟩⟩
+
+theorem ok_setGeoms (k : Bound) (m : Mem α) (geoms' : List (List (MGeom α))) (a i : Nat) (v : MGeom α)
+    (hk : k.geoms ≤ a) (hv : v.fresh k) (h : aSet (E := E) m.geoms a i v = .ok geoms') :
+    Ok k m { m with geoms := geoms' } := by
+  obtain ⟨h1, h2⟩ := aSet_take m.geoms geoms' a i k.geoms v hk h
+  exact ⟨⟨rfl, rfl, rfl, h1, rfl, Nat.le_refl _, Nat.le_refl _, Nat.le_refl _, Nat.le_of_eq h2.symm⟩,
+    fun hi => ⟨hi.paths, hi.polys, AreaInv_set _ _ _ _ a i v hv h hi.geoms⟩⟩
+
+theorem ok_allocGeoms (k : Bound) (m : Mem α) (arr : List (MGeom α)) (hk : k.le m) (hz : ∀ h ∈ arr, MGeom.fresh k h) :
+    Ok k m { m with geoms := (aAlloc m.geoms arr).2 } := by
+  obtain ⟨h1, h2⟩ := aAlloc_take m.geoms arr k.geoms hk.2.2.2
+  exact ⟨⟨rfl, rfl, rfl, h1, rfl, Nat.le_refl _, Nat.le_refl _, Nat.le_refl _, h2⟩,
+    fun hi => ⟨hi.paths, hi.polys, AreaInv_alloc _ _ _ arr hz hi.geoms⟩⟩
+
+/-! ### loops -/
+
+theorem loopN_ok (k : Bound) (body : Nat → M E α Unit)
+    (hb : ∀ i m, k.le m → Ok k m (body i m).1) :
+    ∀ (n i : Nat) (m : Mem α), k.le m → Ok k m (loopN body i n m).1 := by
   intro n
   induction n with
-  | zero => intro i m; simp [loop]
+  | zero => intro i m _; simp [loopN]; exact Ok.refl k m
   | succ n ih =>
-    intro i m
-    unfold loop
-    cases hg : get (E := E) m a i with
-    | error e => simp
-    | ok p =>
-      simp only []
-      cases ht : t p with
-      | error e => simp
-      | ok q =>
-        simp only []
-        cases hs : set (E := E) m a2 i q with
-        | error e => simp
-        | ok m' =>
-          simp only []
-          obtain ⟨h1, h2⟩ := set_prefix m m' a2 i k q hk hs
-          obtain ⟨h3, h4⟩ := ih (i+1) m'
-          exact ⟨h3.trans h1, h4.trans h2⟩
-
-end GeomV.C10.Mem
-
-namespace GeomV.C10.Mem
-open GeomV GeomV.C10
-variable {E α : Type}
-
-/-- `LineString.Transform` on memory: every array that existed before the call — the input's backing
-array included — is unchanged on every path (success, transformer error, panic), and a successful
-call returns the address of a NEW array. -/
-theorem lineStringM_mem (zero : Pt α) (t : TF E α) (a : Nat) (m : Mem α) :
-    (lineStringM zero t a m).1.take m.length = m ∧
-    (∀ a2, (lineStringM zero t a m).2 = .ok a2 → a2 = m.length ∧ a < a2) := by
-  unfold lineStringM
-  cases hm : m[a]? with
-  | none => simp
-  | some l =>
-    have ha : a < m.length := by
-      have := List.getElem?_eq_some_iff.mp hm; exact this.1
-    simp only [make]
-    obtain ⟨h1, h2⟩ := loop_prefix t a m.length m.length (Nat.le_refl _) l.length 0 (m ++ [List.replicate l.length zero])
-    have h3 : (m ++ [List.replicate l.length zero]).take m.length = m := List.take_left' rfl
-    generalize hloop : loop t a m.length 0 l.length (m ++ [List.replicate l.length zero]) = r at *
-    obtain ⟨m2, res⟩ := r
+    intro i m hk
+    have h1 := hb i m hk
+    unfold loopN
+    generalize hbody : body i m = r at h1
+    obtain ⟨m', res⟩ := r
     cases res with
-    | ok u => simp at h1 ⊢; exact ⟨h1, ha⟩
-    | error e => simp at h1 ⊢; exact h1
+    | error e => simpa using h1
+    | ok u =>
+      simp only []
+      exact h1.trans (ih (i+1) m' (Bound.le_of_frozen hk h1.frozen))
+
+/-! ### the methods -/
+
+theorem ptsBody_ok (k : Bound) (t : TF E α) (s : Slice) (dst i : Nat) (m : Mem α) (hd : k.pts ≤ dst) :
+    Ok k m (ptsBody t s dst i m).1 := by
+  unfold ptsBody
+  cases aGet (E := E) m.pts s.addr (s.off + i) with
+  | error e => exact Ok.refl k m
+  | ok p =>
+    simp only []
+    cases t p with
+    | error e => exact Ok.refl k m
+    | ok q =>
+      simp only []
+      cases h : aSet (E := E) m.pts dst i q with
+      | error e => exact Ok.refl k m
+      | ok pts' => exact ok_setPts k m pts' dst i q hd h
+
+/-- shape shared by all five slice-returning methods: harmless, and the returned header is fresh -/
+def MethodOk (k : Bound) (fr : Nat) (m : Mem α) (r : Mem α × Except (Fail E) Slice) : Prop :=
+  Ok k m r.1 ∧ ∀ h, r.2 = .ok h → h.fresh fr
+
+theorem lineStringM_ok (k : Bound) (zero : Pt α) (t : TF E α) (s : Slice) (m : Mem α) (hk : k.le m) :
+    MethodOk k k.pts m (lineStringM zero t s m) := by
+  unfold lineStringM
+  simp only [aAlloc]
+  have h1 := ok_allocPts k m (List.replicate s.len zero) hk
+  simp only [aAlloc] at h1
+  have hk1 := Bound.le_of_frozen hk h1.frozen
+  have h2 := loopN_ok k (ptsBody t s m.pts.length) (fun i m' _ => ptsBody_ok k t s _ i m' hk.1) s.len 0 _ hk1
+  generalize loopN (ptsBody t s m.pts.length) 0 s.len { m with pts := m.pts ++ [List.replicate s.len zero] } = r at h2
+  obtain ⟨m2, res⟩ := r
+  cases res with
+  | error e => exact ⟨h1.trans h2, fun h hh => by simp at hh⟩
+  | ok u => exact ⟨h1.trans h2, fun h hh => by simp at hh; subst hh; exact Or.inr hk.1⟩
+
+theorem ringBody_ok (k : Bound) (zero : Pt α) (t : TF E α) (s : Slice) (dst i : Nat) (m : Mem α)
+    (hd : k.paths ≤ dst) (hk : k.le m) : Ok k m (ringBody zero t s dst i m).1 := by
+  unfold ringBody
+  cases aGet (E := E) m.paths s.addr (s.off + i) with
+  | error e => exact Ok.refl k m
+  | ok r =>
+    simp only [aAlloc]
+    have h1 := ok_allocPts k m (List.replicate r.len zero) hk
+    simp only [aAlloc] at h1
+    have hk1 := Bound.le_of_frozen hk h1.frozen
+    cases hs : aSet (E := E) m.paths dst i ⟨m.pts.length, 0, r.len⟩ with
+    | error e => exact h1
+    | ok paths1 =>
+      simp only []
+      have h2 : Ok k { m with pts := m.pts ++ [List.replicate r.len zero] }
+          { m with pts := m.pts ++ [List.replicate r.len zero], paths := paths1 } :=
+        ok_setPaths k { m with pts := m.pts ++ [List.replicate r.len zero] } paths1 dst i _ hd (Or.inr hk.1) hs
+      have hk2 := Bound.le_of_frozen hk1 h2.frozen
+      exact (h1.trans h2).trans
+        (loopN_ok k (ptsBody t r m.pts.length) (fun j m' _ => ptsBody_ok k t r _ j m' hk.1) r.len 0 _ hk2)
+
+theorem zeroSlices_fresh (n k : Nat) : ∀ h ∈ List.replicate n zeroSlice, Slice.fresh k h := by
+  intro h hh
+  have := List.eq_of_mem_replicate hh
+  subst this; exact Or.inl rfl
+
+theorem polygonM_ok (k : Bound) (zero : Pt α) (t : TF E α) (s : Slice) (m : Mem α) (hk : k.le m) :
+    MethodOk k k.paths m (polygonM zero t s m) := by
+  unfold polygonM
+  simp only [aAlloc]
+  have h1 := ok_allocPaths k m (List.replicate s.len zeroSlice) hk (zeroSlices_fresh _ _)
+  simp only [aAlloc] at h1
+  have hk1 := Bound.le_of_frozen hk h1.frozen
+  have h2 := loopN_ok k (ringBody zero t s m.paths.length)
+    (fun i m' hm' => ringBody_ok k zero t s _ i m' hk.2.1 hm') s.len 0 _ hk1
+  generalize loopN (ringBody zero t s m.paths.length) 0 s.len
+    { m with paths := m.paths ++ [List.replicate s.len zeroSlice] } = r at h2
+  obtain ⟨m2, res⟩ := r
+  cases res with
+  | error e => exact ⟨h1.trans h2, fun h hh => by simp at hh⟩
+  | ok u => exact ⟨h1.trans h2, fun h hh => by simp at hh; subst hh; exact Or.inr hk.2.1⟩
+
+theorem mlsBody_ok (k : Bound) (zero : Pt α) (t : TF E α) (s : Slice) (dst i : Nat) (m : Mem α)
+    (hd : k.paths ≤ dst) (hk : k.le m) : Ok k m (mlsBody zero t s dst i m).1 := by
+  unfold mlsBody
+  cases aGet (E := E) m.paths s.addr (s.off + i) with
+  | error e => exact Ok.refl k m
+  | ok l =>
+    simp only []
+    obtain ⟨h1, hf⟩ := lineStringM_ok k zero t l m hk
+    generalize lineStringM zero t l m = r at h1 hf
+    obtain ⟨m1, res⟩ := r
+    cases res with
+    | error e => exact h1
+    | ok hdr =>
+      simp only []
+      cases hs : aSet (E := E) m1.paths dst i hdr with
+      | error e => exact h1
+      | ok paths' => exact h1.trans (ok_setPaths k m1 paths' dst i hdr hd (hf hdr rfl) hs)
+
+theorem multiLineM_ok (k : Bound) (zero : Pt α) (t : TF E α) (s : Slice) (m : Mem α) (hk : k.le m) :
+    MethodOk k k.paths m (multiLineM zero t s m) := by
+  unfold multiLineM
+  simp only [aAlloc]
+  have h1 := ok_allocPaths k m (List.replicate s.len zeroSlice) hk (zeroSlices_fresh _ _)
+  simp only [aAlloc] at h1
+  have hk1 := Bound.le_of_frozen hk h1.frozen
+  have h2 := loopN_ok k (mlsBody zero t s m.paths.length)
+    (fun i m' hm' => mlsBody_ok k zero t s _ i m' hk.2.1 hm') s.len 0 _ hk1
+  generalize loopN (mlsBody zero t s m.paths.length) 0 s.len
+    { m with paths := m.paths ++ [List.replicate s.len zeroSlice] } = r at h2
+  obtain ⟨m2, res⟩ := r
+  cases res with
+  | error e => exact ⟨h1.trans h2, fun h hh => by simp at hh⟩
+  | ok u => exact ⟨h1.trans h2, fun h hh => by simp at hh; subst hh; exact Or.inr hk.2.1⟩
+
+theorem mpgBody_ok (k : Bound) (zero : Pt α) (t : TF E α) (s : Slice) (dst i : Nat) (m : Mem α)
+    (hd : k.polys ≤ dst) (hk : k.le m) : Ok k m (mpgBody zero t s dst i m).1 := by
+  unfold mpgBody
+  cases aGet (E := E) m.polys s.addr (s.off + i) with
+  | error e => exact Ok.refl k m
+  | ok p =>
+    simp only []
+    obtain ⟨h1, hf⟩ := polygonM_ok k zero t p m hk
+    generalize polygonM zero t p m = r at h1 hf
+    obtain ⟨m1, res⟩ := r
+    cases res with
+    | error e => exact h1
+    | ok hdr =>
+      simp only []
+      cases hs : aSet (E := E) m1.polys dst i hdr with
+      | error e => exact h1
+      | ok polys' => exact h1.trans (ok_setPolys k m1 polys' dst i hdr hd (hf hdr rfl) hs)
+
+theorem multiPolyM_ok (k : Bound) (zero : Pt α) (t : TF E α) (s : Slice) (m : Mem α) (hk : k.le m) :
+    MethodOk k k.polys m (multiPolyM zero t s m) := by
+  unfold multiPolyM
+  simp only [aAlloc]
+  have h1 := ok_allocPolys k m (List.replicate s.len zeroSlice) hk (zeroSlices_fresh _ _)
+  simp only [aAlloc] at h1
+  have hk1 := Bound.le_of_frozen hk h1.frozen
+  have h2 := loopN_ok k (mpgBody zero t s m.polys.length)
+    (fun i m' hm' => mpgBody_ok k zero t s _ i m' hk.2.2.1 hm') s.len 0 _ hk1
+  generalize loopN (mpgBody zero t s m.polys.length) 0 s.len
+    { m with polys := m.polys ++ [List.replicate s.len zeroSlice] } = r at h2
+  obtain ⟨m2, res⟩ := r
+  cases res with
+  | error e => exact ⟨h1.trans h2, fun h hh => by simp at hh⟩
+  | ok u => exact ⟨h1.trans h2, fun h hh => by simp at hh; subst hh; exact Or.inr hk.2.2.1⟩
+
+theorem boundsM_ok (k : Bound) (zero : Pt α) (t : TF E α) (a : Nat) (m : Mem α) (hk : k.le m) :
+    MethodOk k k.paths m (boundsM zero t a m) := by
+  unfold boundsM
+  cases hb : m.bnds[a]? with
+  | none => exact ⟨Ok.refl k m, fun h hh => by simp at hh⟩
+  | some b =>
+    obtain ⟨mn, mx⟩ := b
+    simp only [aAlloc]
+    have h1 := ok_allocPts k m [mn, ⟨mx.x, mn.y⟩, mx, ⟨mn.x, mx.y⟩] hk
+    simp only [aAlloc] at h1
+    have hk1 := Bound.le_of_frozen hk h1.frozen
+    have h2 := ok_allocPaths k { m with pts := m.pts ++ [[mn, ⟨mx.x, mn.y⟩, mx, ⟨mn.x, mx.y⟩]] }
+      [(⟨m.pts.length, 0, 4⟩ : Slice)] hk1 (by intro h hh; simp at hh; subst hh; exact Or.inr hk.1)
+    simp only [aAlloc] at h2
+    have hk2 := Bound.le_of_frozen hk1 h2.frozen
+    obtain ⟨h3, hf⟩ := polygonM_ok k zero t ⟨m.paths.length, 0, 1⟩ _ hk2
+    exact ⟨(h1.trans h2).trans h3, hf⟩
+
+theorem nils_fresh (n : Nat) (k : Bound) : ∀ h ∈ List.replicate n (MGeom.nil : MGeom α), MGeom.fresh k h := by
+  intro h hh
+  have := List.eq_of_mem_replicate hh
+  subst this; trivial
+
+theorem collBody_ok (k : Bound) (rec : MGeom α → M E α (MGeom α)) (s : Slice) (dst i : Nat) (m : Mem α)
+    (hd : k.geoms ≤ dst) (hk : k.le m)
+    (hrec : ∀ g m', k.le m' → Ok k m' (rec g m').1 ∧ ∀ g', (rec g m').2 = .ok g' → g'.fresh k) :
+    Ok k m (collBody rec s dst i m).1 := by
+  unfold collBody
+  cases aGet (E := E) m.geoms s.addr (s.off + i) with
+  | error e => exact Ok.refl k m
+  | ok g =>
+    simp only []
+    obtain ⟨h1, hf⟩ := hrec g m hk
+    generalize rec g m = r at h1 hf
+    obtain ⟨m1, res⟩ := r
+    cases res with
+    | error e => exact h1
+    | ok g' =>
+      simp only []
+      cases hs : aSet (E := E) m1.geoms dst i g' with
+      | error e => exact h1
+      | ok geoms' => exact h1.trans (ok_setGeoms k m1 geoms' dst i g' hd (hf g' rfl) hs)
+
+/-- `g.Transform(t)` on memory, any fuel: harmless below any bound within the memory, result fresh -/
+theorem transformM_ok (k : Bound) (zero : Pt α) (t : TF E α) :
+    ∀ (fuel : Nat) (g : MGeom α) (m : Mem α), k.le m →
+      Ok k m (transformM zero t fuel g m).1 ∧ ∀ g', (transformM zero t fuel g m).2 = .ok g' → g'.fresh k := by
+  intro fuel
+  induction fuel with
+  | zero => intro g m hk; exact ⟨Ok.refl k m, fun g' h => by simp [transformM] at h⟩
+  | succ fuel ih =>
+    intro g m hk
+    cases g with
+    | point p =>
+      simp only [transformM]
+      cases t p with
+      | ok q => exact ⟨Ok.refl k m, fun g' h => by simp at h; subst h; trivial⟩
+      | error e => exact ⟨Ok.refl k m, fun g' h => by simp at h⟩
+    | nil => exact ⟨Ok.refl k m, fun g' h => by simp [transformM] at h⟩
+    | multiPoint s =>
+      simp only [transformM]
+      obtain ⟨h1, hf⟩ := lineStringM_ok k zero t s m hk
+      generalize lineStringM zero t s m = r at h1 hf
+      obtain ⟨m1, res⟩ := r
+      cases res with
+      | error e => exact ⟨h1, fun g' h => by simp at h⟩
+      | ok hdr => exact ⟨h1, fun g' h => by simp at h; subst h; exact hf hdr rfl⟩
+    | lineString s =>
+      simp only [transformM]
+      obtain ⟨h1, hf⟩ := lineStringM_ok k zero t s m hk
+      generalize lineStringM zero t s m = r at h1 hf
+      obtain ⟨m1, res⟩ := r
+      cases res with
+      | error e => exact ⟨h1, fun g' h => by simp at h⟩
+      | ok hdr => exact ⟨h1, fun g' h => by simp at h; subst h; exact hf hdr rfl⟩
+    | multiLineString s =>
+      simp only [transformM]
+      obtain ⟨h1, hf⟩ := multiLineM_ok k zero t s m hk
+      generalize multiLineM zero t s m = r at h1 hf
+      obtain ⟨m1, res⟩ := r
+      cases res with
+      | error e => exact ⟨h1, fun g' h => by simp at h⟩
+      | ok hdr => exact ⟨h1, fun g' h => by simp at h; subst h; exact hf hdr rfl⟩
+    | polygon s =>
+      simp only [transformM]
+      obtain ⟨h1, hf⟩ := polygonM_ok k zero t s m hk
+      generalize polygonM zero t s m = r at h1 hf
+      obtain ⟨m1, res⟩ := r
+      cases res with
+      | error e => exact ⟨h1, fun g' h => by simp at h⟩
+      | ok hdr => exact ⟨h1, fun g' h => by simp at h; subst h; exact hf hdr rfl⟩
+    | multiPolygon s =>
+      simp only [transformM]
+      obtain ⟨h1, hf⟩ := multiPolyM_ok k zero t s m hk
+      generalize multiPolyM zero t s m = r at h1 hf
+      obtain ⟨m1, res⟩ := r
+      cases res with
+      | error e => exact ⟨h1, fun g' h => by simp at h⟩
+      | ok hdr => exact ⟨h1, fun g' h => by simp at h; subst h; exact hf hdr rfl⟩
+    | bounds a =>
+      simp only [transformM]
+      obtain ⟨h1, hf⟩ := boundsM_ok k zero t a m hk
+      generalize boundsM zero t a m = r at h1 hf
+      obtain ⟨m1, res⟩ := r
+      cases res with
+      | error e => exact ⟨h1, fun g' h => by simp at h⟩
+      | ok hdr => exact ⟨h1, fun g' h => by simp at h; subst h; exact hf hdr rfl⟩
+    | collection s =>
+      simp only [transformM, aAlloc]
+      have h1 := ok_allocGeoms k m (List.replicate s.len MGeom.nil) hk (nils_fresh _ _)
+      simp only [aAlloc] at h1
+      have hk1 := Bound.le_of_frozen hk h1.frozen
+      have h2 := loopN_ok k (collBody (transformM zero t fuel) s m.geoms.length)
+        (fun i m' hm' => collBody_ok k _ s _ i m' hk.2.2.2 hm' (fun g m'' hm'' => ih g m'' hm'')) s.len 0 _ hk1
+      generalize loopN (collBody (transformM zero t fuel) s m.geoms.length) 0 s.len
+        { m with geoms := m.geoms ++ [List.replicate s.len MGeom.nil] } = r at h2
+      obtain ⟨m2, res⟩ := r
+      cases res with
+      | error e => exact ⟨h1.trans h2, fun g' h => by simp at h⟩
+      | ok u => exact ⟨h1.trans h2, fun g' h => by simp at h; subst h; exact Or.inr hk.2.2.2⟩
 
 end GeomV.C10.Mem
